@@ -391,6 +391,7 @@ def oracle_trace(o):
     finished_ok = set()
     failed_paths = set()
     started = {}
+    started_keys = {}
     running = set()
     first_fail_seen = False
     held = 0            # tokens taken - tokens given back, from the acquire/release events
@@ -425,10 +426,16 @@ def oracle_trace(o):
             # 2. once and exclusive
             if p in running:
                 out.append(("workspace-executed-concurrently", "two scripts run in %s at the same time" % p))
+            key = (sb, (o["tasks"][t] or {}).get("co") if t < len(o["tasks"]) else None)
             if p in finished_ok:
                 out.append(("workspace-executed-twice", "workspace %s executed a second time in one invocation" % p))
             elif p in started and p not in failed_paths:
                 out.append(("workspace-executed-twice", "workspace %s executed a second time in one invocation" % p))
+            elif key in started_keys.get(p, ()):
+                # a failed step is not cooked again for the same (workspace, sandbox, checkoutOnly): its task stays in
+                # the tracker and later requesters get the same exception
+                out.append(("failed-step-executed-again", "step %s (same sandbox and checkoutOnly) executed again after it failed" % p))
+            started_keys.setdefault(p, set()).add(key)
             started[p] = started.get(p, 0) + 1
             running.add(p)
             # 3. bounded
@@ -914,6 +921,7 @@ _STATE = {}
 
 SEM_SCRIPTS = [
     # the child make holds the only token, a task waits, the token comes back: the reader callback has to serve it
+    (False, 1, 1, ["take", "acq:0", "ret"]),
     (False, 1, 2, ["take", "acq:0", "ret"]),
     (True, 1, 3, ["acq:0", "take", "acq:1", "ret"]),
     # two owners release in the same loop iteration while one task waits (hand-over in flight)
